@@ -17,6 +17,8 @@ abstract file system** `Fs`:
 * the encoder is a parameter `enc : Except Err Bytes` (`rtf_encode()` does not write the file
   system), the converter a parameter `Converter` (a function on the file system: it may write below
   its output directory, fail before or after doing so, and return a path, a list or something else).
+  The converter rtflite ships is an instance built from a **process run** (`procConverter`, below): the run's
+  outcome is data — exit status + entries written — and a non-zero exit status is a failure whatever was written.
 
 Modelled code = the tree **with the D23 repair** (`fixes/html-resource-folder-nesting.patch`): before
 the HTML resource folder is moved next to the target an existing destination is removed.  The
@@ -337,6 +339,112 @@ def stubN (beh : Beh) (fmt : List Char) : Converter := fun fs inp out =>
 
 /-- the parameters of a call whose intermediate RTF is named as the code names it -/
 def Params.Named (P : Params) : Prop := P.rtfName = rtfNameOf P.tname
+
+/-! ## converters that run an external process (`LibreOfficeConverter`)
+
+`LibreOfficeConverter.convert` starts a process (`soffice --convert-to <fmt> --outdir <out> <inp>`) and decides from
+what the process *reports and leaves behind* whether the conversion happened.  The outcome of one process run is
+data: its **exit status** and the **entries it wrote** into its output directory (`ProcRun`).  The rule
+(`procVerdict`, = `_convert_single_file`):
+
+* exit status ≠ 0 (an `exit n`, a crash, a kill by signal — `subprocess.CalledProcessError`) **is a failure
+  whatever the process wrote** — a full, a truncated or an empty `<stem>.<fmt>` in the output directory does not
+  turn a failed run into a conversion;
+* exit status 0 without the expected file `<stem>.<fmt>` ("Output file not created") is a failure too;
+* exit status 0 with the expected file: the conversion's output is that file.
+
+What the process wrote stays on the (temporary) file system either way; the export's scopes remove it. -/
+
+/-- the outcome of one run of the external converter process -/
+structure ProcRun where
+  /-- exit status; `0` = success, anything else (`exit n`, `128 + signal`) = failure -/
+  exit : Nat
+  /-- entries written, **relative to the output directory**, in the order they were written -/
+  files : List (Path × Node)
+  deriving Repr
+
+/-- a converter process: what it does is a function of the file system it sees, its input and output directory -/
+abbrev Proc := Fs → (inp : Path) → (out : Path) → ProcRun
+
+/-- replay the writes of a run below `out` -/
+def writeRel (out : Path) : List (Path × Node) → Fs → Fs
+  | [], fs => fs
+  | e :: r, fs => writeRel out r (fset fs (out ++ e.1) e.2)
+
+inductive ProcVerdict where
+  | failed                 -- the conversion failed
+  | produced (p : Path)    -- the conversion's output
+  deriving DecidableEq, Repr
+
+/-- the verdict on a run that left the file system `fsAfter`, `o` = the expected output file -/
+def procVerdict (run : ProcRun) (fsAfter : Fs) (o : Path) : ProcVerdict :=
+  if run.exit ≠ 0 then .failed
+  else if fget fsAfter o = none then .failed
+  else .produced o
+
+/-- `LibreOfficeConverter(...).convert(input_files=inp, output_dir=out, format=fmt, overwrite=True)` over the
+process `pr` (the version probe belongs to the constructor = the `resolve` effect) -/
+def procConverter (pr : Proc) (fmt : List Char) : Converter := fun fs inp out =>
+  match fget fs inp with
+  | none => (.error .os, fs)          -- "Input file not found"
+  | some _ =>
+    let run := pr fs inp out
+    let fs' := writeRel out run.files fs
+    match procVerdict run fs' (out ++ [convName fmt inp]) with
+    | .failed => (.error .converter, fs')
+    | .produced p => (.ok (.path p), fs')
+
+/-! ### the harness's fake `soffice` (harness/faults.py: `FAKE_SOFFICE`) as a `Proc` -/
+
+/-- what the fake process does about the expected output file `<stem>.<fmt>` -/
+inductive OutKind where
+  | none               -- writes no output
+  | full               -- the whole document
+  | trunc (n : Nat)    -- the first `n` bytes of it (dies / disk full while writing)
+  | empty              -- creates the file, writes nothing
+  | part               -- the whole document, but under the name `<stem>.<fmt>.part`
+  | sub                -- the whole document, but as `nested_out/<stem>.<fmt>`
+  deriving DecidableEq, Repr
+
+structure FakeSpec where
+  exit : Nat
+  out : OutKind
+  /-- also writes the resource folder `<stem>.<fmt>_files` -/
+  res : Bool
+  /-- also writes a lock file, a `.tmp` sibling and a cache directory into the output directory -/
+  extra : Bool
+  deriving DecidableEq, Repr
+
+def partSuffix : Name := ['.', 'p', 'a', 'r', 't']
+def nestedOut : Name := ['n', 'e', 's', 't', 'e', 'd', '_', 'o', 'u', 't']
+
+/-- the resource folder's entries (the same as `stub .okRes`) -/
+def resEntries (folder : Name) : List (Path × Node) :=
+  [([folder], .dir), ([folder, ['r', '.', 't', 'x', 't']], .file ['r', 'e', 's', 'o', 'u', 'r', 'c', 'e']),
+   ([folder, ['s', 'u', 'b']], .dir), ([folder, ['s', 'u', 'b'], ['s', '.', 't', 'x', 't']], .file ['n', 'e', 's', 't', 'e', 'd'])]
+
+def extraEntries (name : Name) : List (Path × Node) :=
+  [([['.', '~', 'l', 'o', 'c', 'k', '.'] ++ name ++ ['#']], .file ['l', 'o', 'c', 'k']),
+   ([name ++ ['.', 't', 'm', 'p']], .file ['t', 'm', 'p']),
+   ([['l', 'u', '_', 'c', 'a', 'c', 'h', 'e']], .dir),
+   ([['l', 'u', '_', 'c', 'a', 'c', 'h', 'e'], ['x', '.', 'b', 'i', 'n']], .file ['b', 'i', 'n'])]
+
+def fakeProc (sp : FakeSpec) (fmt : List Char) : Proc := fun fs inp _ =>
+  match fget fs inp with
+  | some (.file rtf) =>
+    let name := convName fmt inp
+    let doc := stubBytes fmt rtf
+    let outF : List (Path × Node) := match sp.out with
+      | .none => []
+      | .full => [([name], .file doc)]
+      | .trunc n => [([name], .file (doc.take n))]
+      | .empty => [([name], .file [])]
+      | .part => [([name ++ partSuffix], .file doc)]
+      | .sub => [([nestedOut], .dir), ([nestedOut, name], .file doc)]
+    { exit := sp.exit,
+      files := outF ++ (if sp.res then resEntries (name ++ filesSuffix) else [])
+                    ++ (if sp.extra then extraEntries name else []) }
+  | _ => { exit := 1, files := [] }   -- unreadable input (not reached: the converter checks the input first)
 
 /-! ## well-formedness (separate invariant) -/
 
